@@ -5,7 +5,6 @@
    The models mirror the code that exists (same steps, same branches), including its remaining defects:
      - _standardize_connectivity guesses the index base as the minimum real entry when the start_index
        attribute is absent (wrong when element 0 is not referenced by the table);
-     - _read_exodus keeps only the last connect block;
      - _read_scrip keeps repeated corners (SCRIP padding) as face nodes.
    Definitions only.  Node positions are opaque tokens (pairs of Z, ordered lexicographically exactly
    like the float pairs they stand for); index arithmetic is int64 with wrap-around where the code can
@@ -151,20 +150,17 @@ Definition c01_scrip (corners : list (list (Z * Z))) (w : nat) : list (Z * Z) * 
   (u, chunk w (length corners) (map (fun x => if x =? -1 then FILL else x) inv)).
 
 (* ---------------------------------------------------------------------------------------------- *)
-(* Exodus: io/_exodus.py — every connectN overwrites `conn`; conn - 1, then -1 -> fill               *)
+(* Exodus: io/_exodus.py — every connectN block is padded with zeros to max_face_nodes and stacked
+   (np.vstack, dataset variable order); conn - 1, then -1 -> fill                                     *)
 
 Definition c01_exo_dec (x : Z) : Z := if x - 1 =? -1 then FILL else x - 1.
 
-Definition c01_exodus (blocks : list table) : table :=
-  map (map c01_exo_dec) (last blocks []).
+Definition c01_exodus (w : nat) (blocks : list table) : table :=
+  map (map c01_exo_dec) (flat_map (map (fun r => r ++ repeat 0 (w - length r))) blocks).
 
 (* node_x, node_y, node_z as read: variant true = one 2-D `coord` variable, false = coordx/coordy/coordz *)
 Definition c01_exodus_coords {A} (coord2d : bool) (cx cy cz : list A) : list A * list A * list A :=
   if coord2d then (cx, cy, cz) else (cx, cy, cz).
-
-(* repaired variant: all blocks, in order, padded to the common width *)
-Definition c01_exodus_fixed (w : nat) (blocks : list table) : table :=
-  flat_map (map (fun r => let d := map c01_exo_dec r in d ++ repeat FILL (w - length d))) blocks.
 
 (* ---------------------------------------------------------------------------------------------- *)
 (* ESMF: io/_esmf.py — start_index attribute of elementConn (1 when absent); the first numElementConn
